@@ -106,8 +106,15 @@ fn domain(p: P) -> Vec<V> {
         // operands of Prefix.new / `ip / len`: all-zeros and all-ones of each
         // family (every length beyond the family's maximum kills a worker on
         // this tree, so the address set is kept small)
-        P::Ip4 => ips(&[IPS4[0], IPS4[3]]).into_iter().map(V::Ip).collect(),
-        P::Ip6 => ips(&[IPS6[0], IPS6[3]]).into_iter().map(V::Ip).collect(),
+        // the first two of each are the only ones that also get lengths beyond the
+        // family's maximum (see `skipped_by_construction`); every address gets every
+        // length the family allows - IPv6 addresses that embed an IPv4 address
+        // (mapped, compatible, translated, 6to4, NAT64) included, after seeded change C10-4
+        P::Ip4 => ips(&[IPS4[0], IPS4[3], IPS4[1], IPS4[2], "10.1.2.3", "128.0.0.0", "224.0.0.1"]).into_iter().map(V::Ip).collect(),
+        P::Ip6 => ips(&[
+            IPS6[0], IPS6[3], IPS6[1], IPS6[2], "::ffff:10.1.2.3", "::ffff:0.0.0.0", "::ffff:255.255.255.255", "::1.2.3.4",
+            "::ffff:0:1.2.3.4", "64:ff9b::1.2.3.4", "2002:102:304::", "fe80::1", "2001:db8::1", "8000::", "::fffe:1.2.3.4", "0:0:0:0:0:ffff:8000:0",
+        ]).into_iter().map(V::Ip).collect(),
         P::Ip => ips(&IPS4).into_iter().chain(ips(&IPS6)).map(V::Ip).collect(),
         // every u8 is a well-typed prefix length
         P::Len4 | P::Len6 => ints(0..=255),
@@ -165,6 +172,19 @@ pub fn entries() -> Vec<Entry> {
         .collect()
 }
 
+/// Argument tuples that are left out on purpose: a prefix length beyond the family's
+/// maximum kills the worker on this tree (known finding), which does not depend on the
+/// address; only the first two addresses of each family get such lengths.
+fn skipped_by_construction(op: &Op, doms: &[Vec<V>], args: &[V]) -> bool {
+    if op.name != "Prefix.new" {
+        return false;
+    }
+    let (Some(V::Ip(ip)), Some(V::Int(len))) = (args.first(), args.get(1)) else { return false };
+    let max = if ip.is_ipv4() { 32 } else { 128 };
+    let representative = doms[0].iter().take(2).any(|d| matches!(d, V::Ip(x) if x == ip));
+    *len > max && !representative
+}
+
 fn case(op: &Op, args: &[V]) -> Value {
     let mut c = plan::case_json(op, args, "script");
     // fields the known-finding predicate looks at
@@ -214,6 +234,10 @@ pub fn run(i: usize, cx: &mut Cx) {
     let mut sampled = false;
     for sub in s0..s1 {
         let args = op.real_args(plan::args_at(doms, sub));
+        if skipped_by_construction(op, doms, &args) {
+            cx.count("prefix_lengths_beyond_family_maximum_not_run", 1);
+            continue;
+        }
         if !cx.case(sub) {
             continue;
         }
